@@ -216,10 +216,13 @@ def step (st : St) (line : String) : St × List String :=
   | ["M", i, "IO", l] => (setProc st (nat! i) fun p => { p with io := nats l }, [])
   | ["M", i, "IO"] => (setProc st (nat! i) fun p => { p with io := [] }, [])
   | "T" :: _ => (st, [line])
+  | "D" :: _ => (st, [line])
   | "G" :: rest =>
     let pre := nats ((kv rest "pre").getD "")
-    let wantP := (st.procs[0]!).io.contains (pre.getD 0 0)
-    let wantC := (List.range st.k).map fun i => (st.procs[i + 1]!).io.contains (pre.getD (i + 1) 0)
+    -- a processor inside a simulated latency (DelayCounter > 0) executes nothing in this tick
+    let dl := nats ((kv rest "dl").getD "")
+    let wantP := (st.procs[0]!).io.contains (pre.getD 0 0) && dl.getD 0 0 == 0
+    let wantC := (List.range st.k).map fun i => (st.procs[i + 1]!).io.contains (pre.getD (i + 1) 0) && dl.getD (i + 1) 0 == 0
     let s' := Hs.Isa.step st.isa { p := wantP, c := wantC }
     let ps := s'.sent.length != st.isa.sent.length
     let cs := (s'.cs.zip st.isa.cs).map fun (a, b) => a.got.length != b.got.length
